@@ -29,6 +29,14 @@ type projectState struct {
 
 // ProjectList will apply the provided projection to the specified list.
 func ProjectList(list bsonkit.List, projection bsonkit.Doc) (bsonkit.List, error) {
+	// check the projection even if there is no document to apply it to
+	if len(list) == 0 {
+		_, err := Project(&bson.D{{Key: "_id"}}, projection)
+		if err != nil {
+			return nil, err
+		}
+	}
+
 	result := make(bsonkit.List, 0, len(list))
 	for _, doc := range list {
 		res, err := Project(doc, projection)
